@@ -84,6 +84,7 @@ type vOp struct {
 	Class  string                 `json:"class,omitempty"` // generator's name for the op (distribution / oracle hints)
 	Quiet  int                    `json:"quiet,omitempty"` // k-th consecutive poll with no server event since the previous poll
 	Until  int64                  `json:"until,omitempty"` // sleep: until t0+Until (real clock)
+	After  int                    `json:"after"`           // get: the timestamp asked for
 	Order  []string               `json:"order,omitempty"` // poll/pollB: ids in the order updateService stored them (Go map iteration)
 }
 
@@ -588,6 +589,30 @@ func (r *vRunner) exec(op vOp, src func() (vOp, bool)) {
 	case "validate":
 		cls := vRecover(func() error { return w.client.registrationManager.validate() })
 		r.emit(op, w.observe(cls, op.Now))
+	case "get":
+		// the server's Get as a client sees it (no interleaving): seed, timestamp, entries keyed by timestamp
+		var line string
+		cls := vRecover(func() error {
+			ps, seed, ts, err := w.server.Get(ctx, vSvc, op.After)
+			if err != nil {
+				return err
+			}
+			var es []string
+			for k, p := range ps {
+				n, _ := strconv.Atoi(k)
+				es = append(es, fmt.Sprintf("%06d:%s", n, p.ID.String()))
+			}
+			sort.Strings(es)
+			for i := range es {
+				es[i] = strings.TrimLeft(es[i][:6], "0") + es[i][6:]
+			}
+			line = fmt.Sprintf("get after=%d seed=%s ts=%d [%s]", op.After, w.seedName(seed), ts, strings.Join(es, " "))
+			return nil
+		})
+		if cls != "ok" {
+			line = "get " + cls
+		}
+		r.emit(op, line)
 	case "sleep":
 		for vNow() < w.t0+op.Until {
 			time.Sleep(50 * time.Millisecond)
@@ -826,8 +851,14 @@ func (r *vRunner) history(hist int, nOps int) {
 			queue = append(queue, vOp{Op: "pollB"})
 			r.exec(vOp{Op: "pollA"}, src)
 			quiet = 0
-		default:
+		case p < 97:
 			r.exec(vOp{Op: "validate"}, nil)
+		default:
+			after := 0
+			if rows := r.serverRows(); len(rows) > 0 && rng.Intn(3) != 0 {
+				after = rows[rng.Intn(len(rows))].LamportTimestamp - rng.Intn(2)
+			}
+			r.exec(vOp{Op: "get", After: after}, nil)
 		}
 	}
 	// end of history: quiescent polls
